@@ -8,7 +8,7 @@ run_one() {
   wt=/tmp/reg-$slot-$$
   git -C /repo worktree add --detach $wt HEAD >/dev/null 2>&1 || { echo "$id: worktree failed"; return; }
   if git -C $wt apply $d/patch.diff 2>/dev/null; then
-    out=$(cd /verif && VERIF_REPO=$wt ./check $prop 2>&1); rc=$?
+    out=$(cd /verif && VERIF_REPO=$wt VERIF_EVIDENCE_DIR=/tmp/reg-evidence VERIF_REPLAY_DIR=/tmp/reg-replays ./check $prop 2>&1); rc=$?
     case $rc in 1) r=caught;; 0) r=MISSED;; *) r="rc=$rc";; esac
   else r="patch does not apply"; fi
   echo "$id: $r"
